@@ -335,7 +335,7 @@ def c10h(ctx):
     an arriving task, resetting it) lets a batch that was created later be applied before an earlier one whose serializer
     is still running - arrival order is submission order, not creation order."""
     prog = ctx.prog
-    o = ctx.ob("C10.h", "expected_epoch/only-advanced-by-one-after-applying", "K3", "CurrentBatch.expected_epoch is assigned only by its constructor and by the increment in process_pending_commits")
+    o = ctx.ob("C10.h", "expected_epoch/only-advanced-by-one-after-applying", "K3", "CurrentBatch.expected_epoch is assigned only by its constructor and by increments by one")
     n = 0
     for b in prog.all_bodies(["qbice_storage"]):
         for bi, blk in enumerate(b.blocks):
@@ -347,10 +347,7 @@ def c10h(ctx):
                 n += 1
                 ctx.touch(b)
                 site = Site(b, bi, si)
-                if b.name != "WriteBehind::process_pending_commits":
-                    ctx.fail(o, site, "%s writes CurrentBatch.expected_epoch: only process_pending_commits may advance it, by one, after the expected batch was applied - taking the "
-                             "position from anything else lets a later-created batch overtake an earlier one that is still being serialized" % b.name)
-                    continue
+                # whichever function does it (the apply step may live in a helper): the only legal write is `+ 1`
                 # the value is expected_epoch + 1
                 ok = False
                 for x in df.origins_of_operand(b, st["rv"].get("op", {})) if st["rv"]["k"] == "use" else []:
@@ -360,7 +357,9 @@ def c10h(ctx):
                     if dk == "assign" and dn["rv"].get("k") == "bin" and dn["rv"]["op"] in ("Add", "AddWithOverflow") and const_int(dn["rv"]["b"]) == 1:
                         ok = True
                 if not ok:
-                    ctx.fail(o, site, "process_pending_commits assigns expected_epoch something other than `expected_epoch + 1`")
+                    ctx.fail(o, site, "%s assigns CurrentBatch.expected_epoch something other than `expected_epoch + 1`: the committer's position in creation order may only advance by one, "
+                             "after the expected batch was applied - taking it from anything else (an arriving task's epoch) lets a later-created batch overtake an earlier one that is still "
+                             "being serialized" % b.name)
     o.sites = n
     if n < 1:
         ctx.fail(o, "(program)", "anchor missing: no assignment to CurrentBatch.expected_epoch found")
